@@ -86,6 +86,11 @@ CLAIMED = {
         technique="TLA+ spec ConnLifecycle (guard, connect hooks that may panic, exit causes, guard Drop) checked by TLC with a must-violate config for the guard order; exit cause x phase x entry point scenarios produced against the real WebSocket server by a raw peer and judged by TLC (Trace_Lifecycle)",
         text="TLC checks that the disconnect hooks run exactly once iff the handshake succeeded, that the registry entry is scoped to the connection, that connect-callback notifications precede responses and that a parked handler eventually observes cancellation; arming the guard after the connect hooks violates DisconnectOnce. Against the real server, nine exit causes are crossed with five phases and up to six serving entry points (accept loop, shutdown loop, graceful-drain loop, serve_connection, serve_connection_with_cancel, adopt_upgraded over a duplex), with 1..8 (32) concurrent connections; connect/disconnect callback counts, registry and alias presence during and after, the order of frames on the wire and a parked handler's view of cancellation are validated per scenario.",
         note="Black box: public callbacks, registry and raw frames only. Timing within a phase is whatever the scheduler produced."),
+    "C05": dict(
+        category="model_checking", design_ref="DESIGN.md §5 C05",
+        technique="TLA+ spec WireStream (concurrent writers, partial writes, interruption policy) checked by TLC with a must-violate config; bytes written by the six real endpoints recorded by a raw peer, decomposed by an independent content-addressed parser and judged by TLC (Trace_WireStream)",
+        text="TLC proves WholeFrames for the fail-the-connection policy and produces the torn stream for the keep-writing policy. On the implementation a raw peer records the byte stream (or WebSocket messages) of the blocking, async and WebSocket clients under 8 (32) concurrent callers with payloads straddling 8 KiB / 64 KiB / 1 MiB boundaries, of the blocking, async and WebSocket servers under pipelined and concurrent responses, and under interrupted writes (write timeout against a stalled reader on the blocking client and both TCP servers; a call abandoned mid-send on the async and WebSocket clients) with 16 (32) MiB frames; an independent parser keyed on body content classifies the bytes into whole frames, a trailing prefix and foreign bytes, and the trace specification accepts only whole frames optionally followed by one final prefix.",
+        note="Trusts TLC and the recorder's content-addressed parser. Stall durations and payload sizes are chosen so that loopback buffering cannot absorb the frame."),
 }
 
 NOT_YET = {}
